@@ -380,7 +380,11 @@ func main() {
 
 	if *replayFile != "" {
 		rc := doReplay(*replayFile, *tier)
-		os.RemoveAll(workDir)
+		if os.Getenv("VERIF_KEEP_WORK") == "" {
+			os.RemoveAll(workDir)
+		} else {
+			fmt.Println("work dir kept:", workDir)
+		}
 		os.Exit(rc)
 	}
 
